@@ -139,7 +139,11 @@ def _invert(a):
 def _fext(a, b, is_max):
     """np.fmax / np.fmin: like maximum / minimum but a NaN operand is ignored"""
     a, b = Q.lift(a), Q.lift(b)
-    an, bn = a.nan_to(b), b.nan_to(a)      # forks when a NaN flag is undecided
+    # no forking here (clamps are applied to whole arrays): if-then-else on the NaN flags
+    a0 = Q(a.n, a.d, a.rn, a.rd, False, a.inf, a.sg)
+    b0 = Q(b.n, b.d, b.rn, b.rd, False, b.inf, b.sg)
+    an = Q.ite(a.nan, b, a0, cheap=True)
+    bn = Q.ite(b.nan, a, b0, cheap=True)
     return an.maximum(bn) if is_max else an.minimum(bn)
 
 
